@@ -102,6 +102,32 @@ int main()
       double l = nf();
       colvarvalue x1(v1, colvarvalue::type_vector), x2(v2, colvarvalue::type_vector);
       o << vs_hex(colvarvalue::interpolate(x1, x2, l)) << "\n";
+    } else if (cmd == "OBJ") {
+      // history on ONE fresh periodic variable: initial period/centre, then M P c (modifycvcs) | W x (colvar::wrap)
+      // | D x1 x2 (colvar::dist2 + dist2_lgrad), in the order given
+      double P0 = nf(), c0 = nf();
+      char body[1024];
+      snprintf(body, sizeof(body), "  distanceZ {\n    main { atomNumbers 1 }\n    ref { dummyAtom (0,0,0) }\n    axis (0,0,1)\n    period %.17g\n    wrapAround %.17g\n  }\n", P0, c0);
+      colvar *cv = get_cv("obj " + cvm::to_str(ncv), body);   // never cached: the key contains the counter
+      if (!cv) { o << "noconfig\n"; continue; }
+      std::string out;
+      while (p < a.size()) {
+        std::string op = a[p++];
+        if (op == "M") {
+          double P = nf(), c = nf();
+          char conf[256]; snprintf(conf, sizeof(conf), "period %.17g\nwrapAround %.17g\n", P, c);
+          std::vector<std::string> confs(1, std::string(conf));
+          cvm::clear_error();
+          if (cv->update_cvc_config(confs) != COLVARS_OK) out += " moderr";
+          cvm::clear_error();
+        } else if (op == "W") {
+          colvarvalue x(nf()); cv->wrap(x); out += " " + vs_hex(x);
+        } else if (op == "D") {
+          colvarvalue x1(nf()), x2(nf());
+          out += " " + H(cv->dist2(x1, x2)) + " " + vs_hex(cv->dist2_lgrad(x1, x2));
+        }
+      }
+      o << (out.size() ? out.substr(1) : std::string("-")) << "\n";
     } else {
       o << "?\n";
     }
